@@ -19,6 +19,8 @@ import os
 import shutil
 import tempfile
 
+import itertools
+
 import numpy as np
 
 from vt import eff, extract
@@ -402,6 +404,80 @@ def _multimesh_history():
     return True, ""
 
 
+def _multimesh_enum(L, only=None):
+    """every history of length <= L over: S = solve + Save_Iter on the current mesh, M = assign a NEW mesh (same connectivity, other coordinates),
+    R<k> = Set_Iter(k), Q<k> = Result(.., iter=k); k ranges over the oldest two and the newest stored iteration.
+    After the history every stored iteration is restored (in two orders) on the mesh and with the state current when it was saved."""
+    import io, contextlib
+    coords, connect = patches.star_patch("QUAD4")
+    base = np.array([[float(x) for x in p_] for p_ in coords])
+
+    def mesh_no(k):
+        A = np.array([[1.0 + 0.1 * k, 0.05 * k], [0.02 * k, 1.0 + 0.2 * k]])
+        co = base.copy()
+        co[:, :2] = base[:, :2] @ A.T
+        return patches.real_mesh("QUAD4", co.tolist(), connect)
+    alphabet = ["S", "M", "R0", "R1", "R-1", "Q0", "Q-1"]
+    count = 0
+    for n_ in range(2, L + 1):
+        for seq in itertools.product(alphabet, repeat=n_ - 1):
+            seq = ("S",) + seq
+            if only is not None and list(seq) != list(only):
+                continue
+            if seq.count("S") < 2 or "M" not in seq:
+                continue
+            s = _mk("Elastic")
+            snaps = []
+            nmesh = 0
+            load = 0
+            valid = True
+            for op in seq:
+                if op == "S":
+                    _bc(s, "Elastic", load)
+                    load += 1
+                    s.Solve()
+                    s.Save_Iter()
+                    snaps.append(dict(state=_state(s), mesh=np.asarray(s.mesh.coord).copy()))
+                elif op == "M":
+                    nmesh += 1
+                    s.mesh = mesh_no(nmesh)
+                else:
+                    k = int(op[1:])
+                    if k >= len(snaps) or (k < 0 and not snaps):
+                        valid = False
+                        break
+                    if op[0] == "R":
+                        s.Set_Iter(k)
+                    else:
+                        s.Result("Sxx", iter=k)
+            if not valid:
+                continue
+            count += 1
+            N = len(snaps)
+            for i in list(range(N)) + list(range(N - 1, -1, -1)):
+                s.Set_Iter(i)
+                if not np.array_equal(np.asarray(s.mesh.coord), snaps[i]["mesh"]):
+                    return False, f"history {list(seq)}: after Set_Iter({i}) the simulation is on another mesh than the one iteration {i} was saved on", list(seq), count
+                ok, why = _same(snaps[i]["state"], _state(s))
+                if not ok:
+                    return False, f"history {list(seq)}: after Set_Iter({i}) the state differs ({why})", list(seq), count
+    return True, "", None, count
+
+
+def ob_multimesh_enum(L):
+    try:
+        ok, why, seq, count = _multimesh_enum(L)
+    except Exception as ex:
+        import traceback
+        raise Refuted(f"multi-mesh histories: {type(ex).__name__}: {ex}", signature="multimesh:enum:raises", replay=dict(confirmed=True, tb=traceback.format_exc()[-500:]))
+    if not ok:
+        r = _multimesh_enum(L, only=seq)
+        raise Refuted(f"several meshes in one history: {why}", cex=dict(history=seq), signature="multimesh:enum", replay=dict(confirmed=not r[0], detail=r[1]))
+    if count < 50:
+        raise Unsupported(f"only {count} histories enumerated")
+    return Verdict(DISCHARGED, backend="native run (exact equality)", sub=count, detail=f"{count} histories of length <= {L}")
+
+
 def _replay_multimesh():
     try:
         ok, why = _multimesh_history()
@@ -470,6 +546,10 @@ def build(tier, seed):
                           bound="3 time steps (Newmark / theta scheme), in-memory history", clause="velocity and acceleration are restored with the displacement", timeout=300))
     obs.append(Ob("C15.multimesh.elastic", ob_multimesh, (), "X", (f"{SIMU}::_Simu.Save_Iter", f"{SIMU}::_Simu.Set_Iter", f"{SIMU}::_Simu.__Update_mesh"),
                   bound="one history with two meshes and a restart from an older iteration", clause="each iteration is restored on the mesh it was saved on", timeout=300))
+    Lmm = 5 if tier == "quick" else 6
+    obs.append(Ob("C15.multimesh.enum", ob_multimesh_enum, (Lmm,), "X", (f"{SIMU}::_Simu.mesh[setter]", f"{SIMU}::_Simu.Save_Iter", f"{SIMU}::_Simu.Set_Iter", f"{SIMU}::_Simu.__Update_mesh"),
+                  bound=f"every history of length <= {Lmm} over solve+save / assign a new mesh / Set_Iter(k) / Result(iter=k), one Elastic simulation, 9-node meshes",
+                  clause="whatever the interleaving of mesh assignments and restores, each stored iteration is restored on the mesh and with the state current when it was saved", timeout=1500))
     obs.append(Ob("C15.saveload.elastic", ob_saveload, (), "X", (f"{SIMU}::_Simu.Save", f"{SIMU}::Load_Simu"), bound="one Elastic simulation, 2 iterations",
                   clause="Save / Load_Simu round trip preserves mesh, history length and stored fields", timeout=300))
     obs.append(Ob("canary.keys.Elastic", ob_keys, ("Elastic", True), "E", expect=REFUTED))
